@@ -1046,6 +1046,99 @@ def build_T15j(tree):
     return '\n\n'.join(texts), hashlib.sha256(''.join(shas).encode()).hexdigest()
 
 
+# ---------------------------------------------------------------- T15k: the parsing entry points and the read-back methods
+def _writes_on_self(fn):
+    """attributes of `self` a method writes (attribute stores / deletes, setattr / __dict__ writes, memoising decorators,
+    global / nonlocal)"""
+    w = []
+    for d in fn.decorator_list:
+        t = ast.unparse(d)
+        if t not in ('classmethod', 'staticmethod', 'property'):
+            w.append('decorator:' + t)
+    for n in ast.walk(fn):
+        if isinstance(n, ast.Attribute) and isinstance(n.ctx, (ast.Store, ast.Del)) and ast.unparse(n.value) == 'self':
+            w.append(n.attr)
+        elif isinstance(n, ast.Subscript) and isinstance(n.ctx, (ast.Store, ast.Del)) and \
+                ast.unparse(n.value) in ('self.__dict__', 'vars(self)', 'self'):
+            w.append(ast.unparse(n.value) + '[' + ast.unparse(n.slice) + ']')
+        elif isinstance(n, ast.Call):
+            f = ast.unparse(n.func)
+            if f in ('setattr', 'delattr', 'object.__setattr__', 'object.__delattr__') and n.args and ast.unparse(n.args[0]) == 'self':
+                w.append(f + ':' + (ast.unparse(n.args[1]) if len(n.args) > 1 else '?'))
+            if f in ('self.__dict__.update', 'self.__dict__.setdefault', 'vars(self).update', 'vars(self).setdefault',
+                     'self.__setattr__', 'self.__delattr__', 'self.__dict__.pop', 'self.__dict__.clear'):
+                w.append(f)
+        elif isinstance(n, (ast.Global, ast.Nonlocal)):
+            w += [type(n).__name__.lower() + ':' + x for x in n.names]
+    return sorted(set(w))
+
+
+def build_T15k(tree):
+    """sr/sop.py: the three ways a stored document becomes an object, and the methods that read a document back.
+      Gen.srReadClassMap         (storage class constant, document class) of `srread`'s dispatch table
+      Gen.srFromDatasetChecks    (document class, storage class constant its `from_dataset` demands of `dataset.SOPClassUID`;
+                                 "" = the class has no check of its own)
+      Gen.srReadersWrite         (method, what it writes on the document object) for `content`, `get_evidence`,
+                                 `get_evidence_series` (and every method of the document they call on `self`)
+    plus shape checks: `srread` parses with `from_dataset(dcm, copy=False)` of the class found; each public `from_dataset`
+    delegates to `super().from_dataset(dataset, copy=copy)` and sets `__class__`."""
+    q = _lean_str
+    texts, shas = [], []
+    sr = find_func(tree, 'srread')
+    body = strip_doc(sr.body)
+    cm = _one(body, lambda s: isinstance(s, ast.Assign) and _norm(s.targets[0]) == 'class_map' and isinstance(s.value, ast.Dict), 'class_map of srread')
+    rows = []
+    for k, v in zip(cm.value.keys, cm.value.values):
+        if not (isinstance(k, ast.Name) and isinstance(v, ast.Name)):
+            raise Unsupported('srread: class_map is no longer a table of names')
+        rows.append((k.id, v.id))
+    t = ' '.join(ast.unparse(sr).split())
+    for needle in ('dcm = _wrapped_dcmread(fp)', 'sop_class_uid = dcm.SOPClassUID',
+                   'if sop_class_uid in class_map: return class_map[sop_class_uid].from_dataset(dcm, copy=False)', 'raise RuntimeError('):
+        if needle not in t:
+            raise Unsupported(f'srread: `{needle}` not found')
+    texts.append(lean_table('srReadClassMap', 'List (String × String)', ['(' + q(a) + ', ' + q(b) + ')' for a, b in rows],
+                            doc='`srread`: storage class -> document class the file is parsed as (`from_dataset(dcm, copy=False)`)'))
+    shas.append(_norm(sr))
+    checks = []
+    for cls in ('EnhancedSR', 'ComprehensiveSR', 'Comprehensive3DSR'):
+        c = [n for n in tree.body if isinstance(n, ast.ClassDef) and n.name == cls][0]
+        fns = [n for n in c.body if isinstance(n, ast.FunctionDef) and n.name == 'from_dataset']
+        if not fns:
+            checks.append((cls, ''))
+            continue
+        b = strip_doc(fns[0].body)
+        nb = [_norm(x) for x in b]
+        if len(b) != 4 or not isinstance(b[0], ast.If) or nb[1] != 'sop_instance = super().from_dataset(dataset, copy=copy)' or \
+                nb[2] != 'sop_instance.__class__ = cls' or not nb[3].startswith('return '):
+            raise Unsupported(f'{cls}.from_dataset changed shape')
+        test = _norm(b[0].test)
+        if not test.startswith('dataset.SOPClassUID != ') or 'ValueError' not in _norm(b[0].body[0]) or b[0].orelse:
+            raise Unsupported(f'{cls}.from_dataset: the SOP class check changed')
+        checks.append((cls, test.split('!= ', 1)[1]))
+        shas.append(_norm(fns[0]))
+    texts.append(lean_table('srFromDatasetChecks', 'List (String × String)', ['(' + q(a) + ', ' + q(b) + ')' for a, b in checks],
+                            doc='(document class, storage class its `from_dataset` demands; "" = no check of its own)'))
+    base = [n for n in tree.body if isinstance(n, ast.ClassDef) and n.name == '_SR'][0]
+    own = {n.name: n for n in base.body if isinstance(n, ast.FunctionDef)}
+    todo, seen, wr = ['content', 'get_evidence', 'get_evidence_series'], [], []
+    while todo:
+        m = todo.pop(0)
+        if m in seen or m not in own:
+            continue
+        seen.append(m)
+        fn = own[m]
+        wr.append((m, _writes_on_self(fn)))
+        for n in ast.walk(fn):
+            if isinstance(n, ast.Call) and isinstance(n.func, ast.Attribute) and _norm(n.func.value) == 'self' and n.func.attr in own:
+                todo.append(n.func.attr)
+        shas.append(_norm(fn))
+    texts.append(lean_table('srReadersWrite', 'List (String × List String)',
+                            ['(' + q(m) + ', [' + ', '.join(q(x) for x in w) + '])' for m, w in wr],
+                            doc='the read-back methods of a document: what each writes on the document object'))
+    return '\n\n'.join(texts), hashlib.sha256(''.join(shas).encode()).hexdigest()
+
+
 TARGETS = {'T15a': {'file': 'sr/sop.py', 'build': build_T15a},
            'T15e': {'file': 'sr/enum.py', 'build': build_T15e},
            'T15d': {'file': 'sr/sop.py', 'build': build_T15d},
@@ -1055,4 +1148,5 @@ TARGETS = {'T15a': {'file': 'sr/sop.py', 'build': build_T15a},
            'T15g': {'file': 'sr/content.py', 'build': build_T15g},
            'T15h': {'file': 'sr/sop.py', 'build': build_T15h},
            'T15i': {'file': 'sr/sop.py', 'build': build_T15i},
-           'T15j': {'file': 'sr/value_types.py', 'build': build_T15j}}
+           'T15j': {'file': 'sr/value_types.py', 'build': build_T15j},
+           'T15k': {'file': 'sr/sop.py', 'build': build_T15k}}
